@@ -353,11 +353,11 @@ def run(tier, seed, replay=None):
             cases = [placed]
         elif not replay:
             # WHERE a host-declared field is read from: exhaustive in-process sweep + covering sample of real processes
-            place_cases, place_twins = P.run_placement(sc, out, tier, "protocol", hm=hm, events=("pre",))
+            place_cases, place_twins = P.run_placement(sc, out, tier, "protocol", hm=hm, events=("pre",), sample_limit=70)
             cases = cases + place_cases
             trace_twin_allows(sc, out, place_twins)
             # near-miss spellings of every literal a host field is compared with: answered like the neutral value
-            value_cases, _ = P.run_values(sc, out, tier, "protocol", hm=hm)
+            value_cases, _ = P.run_values(sc, out, tier, "protocol", hm=hm, sample_limit=24)
             cases = cases + value_cases
         for idx, c in enumerate(cases):
             if c.fault:
